@@ -216,7 +216,7 @@ class SourceFile:
         found = []
         for depth, seg in enumerate(segs):
             found = []
-            kind = seg.split()[0]
+            kind = "impl" if re.match(r"impl\b", seg) else seg.split()[0]
             for lo, hi in ranges:
                 for it in self.items(lo, hi):
                     if it.kind != kind:
@@ -306,6 +306,8 @@ RULES = {
     # R8: `e.split(c).collect()` -> shim method `e.vsplit_collect(c)` ($C = one literal): vstd's
     #     `Iterator::collect` contract is not applied for core::str::Split, the shim states the result of both calls
     "R8": [(".split($C).collect()", ".vsplit_collect($C)")],
+    # R10 (signature-only callees): `mut self` is a body-local binding mode, not part of the interface
+    "R10": [("(mut self", "(self")],
     # R4: fn-pointer alias becomes an opaque shim
     "R4": [("FormatFunction", "VFormatFn")],
 }
